@@ -588,3 +588,115 @@ _run_c28c = run
 def run(ctx):  # noqa: F811
     _run_c28c(ctx)
     r28_5(ctx, ctx.model)
+
+
+def stale_cache_rule(ctx, C, rid, m):
+    """memoised results of a class are invalidated by every method that writes one of their inputs"""
+    n = 0
+    for name, fi in sorted(C.methods.items()):
+        # pattern: `if self._X is not None: return self._X` ... `self._X = <value>`
+        early = []
+        for st in walk_no_nested(fi.node):
+            if isinstance(st, ast.If) and isinstance(st.test, ast.Compare) and isinstance(st.test.left, ast.Attribute) and src(st.test.left.value) == "self" \
+                    and len(st.test.ops) == 1 and isinstance(st.test.ops[0], ast.IsNot) and src(st.test.comparators[0]) == "None" \
+                    and any(isinstance(r, ast.Return) and r.value is not None and src(r.value) == src(st.test.left) for r in st.body):
+                early.append(st.test.left.attr)
+        for attr in early:
+            stores = [st for st in walk_no_nested(fi.node) if isinstance(st, ast.Assign) and src(st.targets[0]) == f"self.{attr}"]
+            if not stores:
+                continue
+            n += 1
+            ctx.saw_func(fi)
+            inputs = {x.attr for x in walk_no_nested(fi.node) if isinstance(x, ast.Attribute) and src(x.value) == "self" and isinstance(x.ctx, ast.Load)
+                      and x.attr != attr and x.attr not in C.methods}
+            # properties that are thin wrappers of an attribute count as that attribute
+            for pn, pf in C.methods.items():
+                if any(isinstance(x, ast.Attribute) and src(x.value) == "self" and x.attr == pn for x in walk_no_nested(fi.node)):
+                    inputs |= {x.attr for x in walk_no_nested(pf.node) if isinstance(x, ast.Attribute) and src(x.value) == "self" and x.attr.startswith("_")}
+            for wn, wf in sorted(C.methods.items()):
+                if wn in (name, "__init__"):
+                    continue
+                written = {t.attr for st in walk_no_nested(wf.node) if isinstance(st, (ast.Assign, ast.AugAssign))
+                           for t in (st.targets if isinstance(st, ast.Assign) else [st.target]) if isinstance(t, ast.Attribute) and src(t.value) == "self"}
+                mutated = {src(c.func.value.value) and c.func.value.attr for c in walk_no_nested(wf.node) if isinstance(c, ast.Call) and isinstance(c.func, ast.Attribute)
+                           and c.func.attr in ("append", "extend", "insert", "pop", "clear", "update") and isinstance(c.func.value, ast.Attribute) and src(c.func.value.value) == "self"}
+                hit = sorted((written | mutated) & inputs)
+                if not hit:
+                    continue
+                resets = attr in written
+                ctx.check(rid, f"{wf.key}::writes {hit}, an input of the memoised {name}() -> resets self.{attr}", resets,
+                          f"{name}() returns the remembered self.{attr}; {wn}() changes {hit} without clearing it: later calls see the stale value", wf)
+    return n
+
+
+def r28_6(ctx, m):
+    from ..util import cfg_of
+    ctx.rule("R28.6", "JAX mode distributor: the multiplicities returned next to the mode -> unique-length index map are the bincount of "
+                      "that very index map (minlength = number of unique lengths) - counts taken from np.unique and filtered like the "
+                      "merged near-equal lengths drop the merged modes", floor=1)
+    fi = m.func(RCF, "_unique_mode_distributor", required=False)
+    if fi is None:
+        ctx.und("R28.6", f"{RCF}::_unique_mode_distributor", "function missing", RCF)
+    else:
+        ctx.saw_func(fi)
+        rets = [r for r in walk_no_nested(fi.node) if isinstance(r, ast.Return) and isinstance(r.value, ast.Tuple) and len(r.value.elts) == 3]
+        key = f"{fi.key}::multiplicities = bincount(index map)"
+        if len(rets) != 1 or not all(isinstance(e, ast.Name) for e in rets[0].value.elts):
+            ctx.und("R28.6", key, "return shape not recognised", fi)
+        else:
+            idx, um, cnt = [e.id for e in rets[0].value.elts]
+            defs = [st for st in walk_no_nested(fi.node) if isinstance(st, ast.Assign) and any(isinstance(t, ast.Name) and t.id == cnt for t in ast.walk(st.targets[0]))]
+            last = max(defs, key=lambda st: st.lineno) if defs else None
+            if last is None:
+                ctx.und("R28.6", key, "definition of the counts not found", fi)
+            else:
+                v = last.value
+                t = src(v).replace(" ", "")
+                if isinstance(v, ast.Call) and call_name(v) == "bincount":
+                    ctx.check("R28.6", key, t.startswith(f"np.bincount({idx}.ravel()") or t.startswith(f"np.bincount({idx}.reshape(-1)") or t.startswith(f"np.bincount({idx},"),
+                              src(v), fi, last)
+                elif "return_counts" in " ".join(src(d.value) for d in defs) or isinstance(v, (ast.Subscript, ast.Tuple)):
+                    ctx.bad("R28.6", key, f"`{src(last)}`: the counts are not recomputed from the final index map `{idx}` (modes whose lengths were merged are not counted)", fi, last)
+                else:
+                    ctx.und("R28.6", key, f"`{src(last)}` not recognised", fi, last)
+    ctx.rule("R28.7", "JAX correlated field: the mean offset is added to the position-space field (outside the harmonic transforms); an "
+                      "offset injected into the harmonic zero mode must carry the volume of ALL sub-grids", floor=1)
+    F = m.cls(RCF, "CorrelatedFieldMaker")
+    fz = F.methods.get("finalize")
+    if fz is None:
+        ctx.und("R28.7", f"{F.key}::finalize", "missing", F)
+    else:
+        ctx.saw_func(fz)
+        inner = [f_ for f_ in ast.walk(fz.node) if isinstance(f_, ast.FunctionDef) and f_.name == "correlated_field"]
+        key = f"{fz.key}::offset_mean is added after the harmonic transforms"
+        if len(inner) != 1:
+            ctx.und("R28.7", key, "inner model function not found", fz)
+        else:
+            rr = [r for r in ast.walk(inner[0]) if isinstance(r, ast.Return) and r.value is not None]
+            uses = [x for x in ast.walk(fz.node) if isinstance(x, ast.Attribute) and src(x) == "self._offset_mean" and isinstance(x.ctx, ast.Load)]
+            top = [r for r in rr if isinstance(r.value, ast.BinOp) and isinstance(r.value.op, ast.Add) and "self._offset_mean" in (src(r.value.left), src(r.value.right))]
+            if rr and len(top) == len(rr):
+                ctx.ok("R28.7", key, src(top[0].value), fz, top[0])
+            else:
+                # injected elsewhere: look for a volume factor that covers one sub-grid only
+                vols = [x for x in ast.walk(fz.node) if isinstance(x, ast.Attribute) and x.attr == "total_volume" and isinstance(x.value, ast.Subscript)
+                        and isinstance(x.value.slice, ast.Constant)]
+                if uses and vols:
+                    ctx.bad("R28.7", key, f"offset_mean enters before the transform scaled with `{src(vols[0])}`, the volume of ONE sub-grid: for product "
+                                          "spectra the mean is off by the volume of the others", fz, vols[0])
+                else:
+                    ctx.und("R28.7", key, "placement of offset_mean not recognised", fz)
+    ctx.rule("R28.8", "classic CorrelatedFieldMaker: a memoised result (normalised amplitudes, amplitude, spectrum) is cleared by every "
+                      "method that changes one of its inputs (_a, _azm, ...); no memo at all is fine", floor=1)
+    C = m.cls(CCF, "CorrelatedFieldMaker")
+    n = stale_cache_rule(ctx, C, "R28.8", m)
+    if n == 0:
+        ctx.ok("R28.8", f"{C.key}::no memoised results", "every derived operator is rebuilt from the current amplitudes and zero mode", C)
+
+
+_run_c28d = run
+
+
+def run(ctx):  # noqa: F811
+    _run_c28d(ctx)
+    r28_6(ctx, ctx.model)
